@@ -250,6 +250,33 @@ func Main(t *testing.T, h Harness) {
 		wo.Complete = true
 		write()
 		return
+	case "merge":
+		// count distinct 64-bit hashes over the workers' sorted hash files (k-way merge)
+		files := strings.Split(os.Getenv("VERIF_MERGE"), ",")
+		var all []uint64
+		for _, f := range files {
+			if f == "" {
+				continue
+			}
+			b, err := os.ReadFile(f)
+			if err != nil {
+				continue
+			}
+			for i := 0; i+8 <= len(b); i += 8 {
+				all = append(all, binary.LittleEndian.Uint64(b[i:]))
+			}
+		}
+		sort.Slice(all, func(i, j int) bool { return all[i] < all[j] })
+		n := 0
+		for i := range all {
+			if i == 0 || all[i] != all[i-1] {
+				n++
+			}
+		}
+		wo.Distinct = n
+		wo.Complete = true
+		write()
+		return
 	case "trace":
 		// print the trace hash of runs [from,to) — used by the determinism self-test
 		seed, from, to := envU("VERIF_SEED", 1), envU("VERIF_FROM", 0), envU("VERIF_TO", 100)
